@@ -60,6 +60,8 @@ def gen_cases(rng, tier, info):
                 apply(h, alpha[i])
             cases.append(Case("seq-%s" % "".join("%x" % i for i in seq), h.cmds))
             n_seq += 1
+    for name, h in G.scenario_histories(rng):
+        cases.append(Case("scn-" + name, h.cmds))
     n_rand = 150 if tier == "quick" else 4000
     for j in range(n_rand):
         h = G.History(rng, rng.choice([0, 1, 2]))
